@@ -5,6 +5,8 @@ import RawPanelVerif.Driver.Tile
 import RawPanelVerif.Driver.Pix
 import RawPanelVerif.Driver.Net
 import RawPanelVerif.Driver.Gfx
+import RawPanelVerif.Driver.Topology
+import RawPanelVerif.Driver.SvgIcon
 /-!
 Driver: reads records `cmd arg… | implementation-output` on stdin, prints one answer line per record:
 `EQ|NE  H1|H0:<clause>  [model output when NE]`.  State is per family and persists across lines.
@@ -14,6 +16,7 @@ open RawPanelVerif
 structure DriverSt where
   mono : Driver.Mono.St := {}
   gfx : Driver.Gfx.St := {}
+  topo : Driver.Topo.St := {}
 
 def splitRecord (line : String) : String × List String × String :=
   let parts := line.splitOn " | "
@@ -35,6 +38,10 @@ def stepLine (st : DriverSt) (line : String) : DriverSt × String :=
   else if cmd.startsWith "gfx." then
     let (g, out) := Driver.Gfx.step st.gfx cmd args impl
     ({ st with gfx := g }, out)
+  else if cmd.startsWith "topo." then
+    let (m, out) := Driver.Topo.step st.topo cmd args impl
+    ({ st with topo := m }, out)
+  else if cmd.startsWith "svg." then (st, Driver.Svg.step cmd args impl)
   else (st, "ERR unknown-family")
 
 partial def loop (h : IO.FS.Stream) (out : IO.FS.Stream) (st : DriverSt) : IO Unit := do
